@@ -422,9 +422,9 @@ def candidate_spellings(P):
                 if v and v.isidentifier() and v.isascii() and v not in kws:
                     kws.append(v)
     kws = ([kws[0], kws[-1]] if len(kws) > 1 else kws) or ['int', 'sizeof']
-    words = ['x', 'x1', '_', '$', 'x$', 'é', 'xé', '中', 'L', 'u', 'U', 'u8']
-    nums = ['1', '0x7E', '0x7e', '0xfe', '0xFE', '1.', '.5', '1u', '1L', '1.f', '1e5', '1E5', '0x1p3', '0x1P3']
-    quoted = ["'c'", '"s"', "L'c'", "u'c'", "U'c'", 'L"s"', 'u"s"', 'U"s"', 'u8"s"']
+    words = ['x', 'x1', '_', '$', 'é', '中', 'L', 'u', 'U', 'u8']
+    nums = ['1', '0x7E', '0x7e', '1.', '.5', '1u', '1e5', '0x1p3']
+    quoted = ["'c'", '"s"', "L'c'", 'L"s"', 'u8"s"']
     return {'punct': [p.encode() for p in puncts], 'word': [w.encode('utf-8') for w in words], 'keyword': [k.encode() for k in kws],
             'number': [n.encode() for n in nums], 'quoted': [q.encode() for q in quoted]}
 
@@ -467,8 +467,6 @@ class Printer:
     def decide(self, kind_a, a, b_kind, b, max_paths=96):
         """-> list of (separated?, trail, fields consulted) per returning path of print_tokens on `; A B`"""
         it, E = self.it, self.E
-        box = {}
-
         def tok(label, kind, bs, **kw):
             f = {'kind': kind, 'loc': cbuf(bs, label), 'len': len(bs), 'at_bol': 0, 'has_space': 0, 'next': 0}
             f.update(kw)
@@ -480,14 +478,13 @@ class Printer:
             B = tok('tok', b_kind, b)
             e = Obj('Token', lazy=True, label='eof', fields={'kind': E['TK_EOF'], 'loc': cbuf(b'', 'eof'), 'len': 0, 'at_bol': 1, 'has_space': 0, 'next': 0})
             x.fields['next'] = A; A.fields['next'] = B; B.fields['next'] = e
-            box['A'], box['B'] = A, B
-            box['base'] = {id(t): set(t.fields) for t in (x, A, B, e)}
-            box['toks'] = (x, A, B, e)
+            ctx.c19 = {'A': A, 'B': B, 'base': {id(t): set(t.fields) for t in (x, A, B, e)}, 'toks': (x, A, B, e)}
             return [x]
         res = []
         for ctx, out in it.explore(self.fn, mk, max_paths=max_paths):
             if out[0] != 'ret':
                 continue
+            box = ctx.c19
             A, B = box['A'], box['B']
             text = []       # ('sep', str) | ('tok', arr)
             und = None
@@ -675,3 +672,14 @@ def run_table(P, workers=None):
         if results[i] is None:      # no fork, or a worker failed: same computation in this process
             results[i] = _work(P, lx, pr, group, kind, kap, ch, nxts)
     return [x for r in results for x in r], info
+
+
+def describe_pair(info, enum_name, a, b):
+    """stable class name of a pair: kind and last-character class of the previous token, first-character class of the next one
+    (punctuators by their full spelling)"""
+    g = info['group']
+    def pn(s):
+        return 'punct-' + '-'.join(CHAR_NAME.get(chr(c), 'char-%02x' % c) for c in s)
+    da = pn(a) if g[a] == 'punct' else '%s-ends-%s' % (g[a], char_class(a[-1], g[a] == 'number'))
+    db = pn(b) if g[b] == 'punct' else 'starts-%s' % char_class(b[0])
+    return '%s(%s)+%s' % (enum_name, da, db)
